@@ -148,6 +148,7 @@ type Machine struct {
 	pinned    []ModelVal
 	coros     []*coro
 	protected map[*Value]*protInfo
+	codecVals []Iface // values behind the codec byte handles
 	protMaps  map[*Map]*protInfo // map objects reachable from a protected cell
 	protMapSeen map[*Map]bool
 	interfere map[*Value][]Value // mutex -> closures run at each acquisition
